@@ -2,6 +2,8 @@ import Grass.Scope
 import Grass.Eval
 import GrassProofs.Lemmas.Scope
 import GrassProofs.Lemmas.Eval
+import GrassProofs.Lemmas.EvalScope
+import GrassProofs.Lemmas.EvalSem
 /-
   C03 — SassScript evaluation follows the language scoping and control-flow rules.
 
@@ -897,5 +899,494 @@ theorem C03_verify_ok_binds (ps : Params) (npos : Nat) (names : List String)
   have hb : bindable ps npos names = true := by simp [bindable, h]
   have := ((C03_verify_iff ps npos names).1 hb).1 j p d hj
   simpa using this
+
+/-!
+  ## Growth: the reference evaluator has the semantics the property lists
+
+  Machine-checked statements about `Eval` (the executable specification): lexical scoping,
+  closures and content blocks, `@return` leaving loops, `@each` destructuring.  They are stated
+  over the evaluator's environment operations (`lookupVar`, `findFrame`, `assignTarget`, `setV` =
+  the heap after `setVarIn`, `inScope` = entering a block) and over `stmtF` / `run` directly.
+  (`C03_precedence` — printer output re-parses to the same tree — is NOT stated: there is no
+  model of the Sass expression parser here; the printer lives in tools/props/c03_gen.py.)
+-/
+
+/-! ### lexical scoping (growth) -/
+
+/-- (a) A variable declared in a nested block (no enclosing scope declares it) lives in the
+    block's own frame: visible inside, not visible once the block is left. -/
+theorem C03_lexical_scoping_block_local (h : Array Frame) (env : List Nat) (n : String) (v : Value) (semi : Bool)
+    (hne : env ≠ []) (hval : ∀ f ∈ env, f < h.size) (hnew : findFrame h env n = none) :
+    assignTarget (h.push {}) (h.size :: env) n false semi = some h.size ∧
+    lookupVar (setV (h.push {}) h.size n v) (h.size :: env) n = some v ∧
+    lookupVar (setV (h.push {}) h.size n v) env n = none := by
+  have hsz : h.size < (h.push ({} : Frame)).size := by simp
+  have hff : findFrame (h.push {}) (h.size :: env) n = none := by
+    rw [findFrame_cons, getV_push]; simp only [if_true]
+    rw [findFrame_push h env n hval]; exact hnew
+  have hlen : ¬ (h.size :: env).length = 1 := by
+    cases env with
+    | nil => exact absurd rfl hne
+    | cons a b => simp
+  refine ⟨?_, lookupVar_setV_top _ _ _ _ _ hsz, ?_⟩
+  · simp [assignTarget, hff, hne]
+  · have hnot : h.size ∉ env := fun hm => Nat.lt_irrefl _ (hval _ hm)
+    rw [lookupVar_setV_notin _ _ _ _ _ _ hsz hnot, lookupVar_push h env n hval]
+    exact findFrame_none_lookup h env n hnew
+
+/-- (b) An assignment in a nested block to a variable that an enclosing LOCAL scope declares (or
+    to a global one when the block is semi-global) updates that outer variable: the new value is
+    what the enclosing scope sees after the block. -/
+theorem C03_lexical_scoping_assign_outer (h : Array Frame) (env : List Nat) (n : String) (v : Value) (semi : Bool)
+    (f : Nat) (hval : ∀ g ∈ env, g < h.size) (hf : findFrame h env n = some f)
+    (hloc : semi = true ∨ some f ≠ env.getLast?) :
+    assignTarget (h.push {}) (h.size :: env) n false semi = some f ∧
+    lookupVar (setV (h.push {}) f n v) env n = some v := by
+  obtain ⟨hmem, _⟩ := findFrame_some h env n f hf
+  have hfs : f < h.size := hval f hmem
+  have hff : findFrame (h.push {}) (h.size :: env) n = some f := by
+    rw [findFrame_cons, getV_push]; simp only [if_true]
+    rw [findFrame_push h env n hval]; exact hf
+  have hne : env ≠ [] := by intro e; subst e; simp at hmem
+  have hlen : ¬ (h.size :: env).length = 1 := by
+    cases env with
+    | nil => exact absurd rfl hne
+    | cons a b => simp
+  have hlast : (h.size :: env).getLast? = env.getLast? := by
+    cases env with
+    | nil => exact absurd rfl hne
+    | cons a b => simp [List.getLast?_cons_cons]
+  constructor
+  · simp only [assignTarget, Bool.false_or, hff, hlast, List.head?_cons]
+    simp only [beq_iff_eq, hlen, if_false]
+    by_cases hq : some f = env.getLast?
+    · rcases hloc with hs | hn
+      · subst hs; simp [hq]
+      · exact absurd hq hn
+    · simp [hq]
+  · have hff' : findFrame (h.push {}) env n = some f := by rw [findFrame_push h env n hval]; exact hf
+    exact lookupVar_setV_found _ n v env f hff' (by simp; omega)
+
+/-- (b') … but a GLOBAL variable is not assigned from a local scope that is not semi-global (a
+    style rule, a mixin, a function): a local variable of that name is declared instead and the
+    global keeps its value. -/
+theorem C03_lexical_scoping_global_shadowed (h : Array Frame) (env : List Nat) (n : String) (v : Value) (g : Nat)
+    (hval : ∀ f ∈ env, f < h.size) (hf : findFrame h env n = some g) (hg : env.getLast? = some g) :
+    assignTarget (h.push {}) (h.size :: env) n false false = some h.size ∧
+    lookupVar (setV (h.push {}) h.size n v) env n = lookupVar h env n := by
+  obtain ⟨hmem, _⟩ := findFrame_some h env n g hf
+  have hsz : h.size < (h.push ({} : Frame)).size := by simp
+  have hff : findFrame (h.push {}) (h.size :: env) n = some g := by
+    rw [findFrame_cons, getV_push]; simp only [if_true]
+    rw [findFrame_push h env n hval]; exact hf
+  have hne : env ≠ [] := by intro e; subst e; simp at hmem
+  have hlen : ¬ (h.size :: env).length = 1 := by
+    cases env with
+    | nil => exact absurd rfl hne
+    | cons a b => simp
+  have hlast : (h.size :: env).getLast? = some g := by
+    cases env with
+    | nil => exact absurd rfl hne
+    | cons a b => rw [← hg]; simp [List.getLast?_cons_cons]
+  constructor
+  · simp [assignTarget, hff, hlast, hne]
+  · have hnot : h.size ∉ env := fun hm => Nat.lt_irrefl _ (hval _ hm)
+    rw [lookupVar_setV_notin _ _ _ _ _ _ hsz hnot, lookupVar_push h env n hval]
+
+/-- (c) `!global` writes the global frame (the last of the chain) from anywhere, creating the
+    variable if need be; the root scope then sees the value. -/
+theorem C03_lexical_scoping_global_flag (h : Array Frame) (env : List Nat) (n : String) (v : Value) (semi : Bool)
+    (g : Nat) (hg : env.getLast? = some g) (hs : g < h.size) :
+    assignTarget h env n true semi = some g ∧ lookupVar (setV h g n v) [g] n = some v := by
+  refine ⟨by rw [assignTarget_global, hg], lookupVar_setV_top h g n v [] hs⟩
+
+/-- (d) `!default` assigns only when the variable is unset or null: otherwise the statement does
+    nothing at all (the expression is not even evaluated). -/
+theorem C03_lexical_scoping_default (r : Rec) (ctx : Ctx) (n : String) (e : Expr) (glob : Bool) (st : St) :
+    (∀ cur, lookupVar st.heap ctx.env n = some cur → cur.eq .null = false →
+        stmtF r ctx (.var n e glob true) st = .ok none st) ∧
+    (lookupVar st.heap ctx.env n = none ∨ (∃ cur, lookupVar st.heap ctx.env n = some cur ∧ cur.eq .null = true) →
+        stmtF r ctx (.var n e glob true) st = stmtF r ctx (.var n e glob false) st) := by
+  constructor
+  · intro cur hc hn
+    unfold stmtF
+    show M.bind getSt _ st = _
+    simp only [M.bind, getSt, hc, hn, Bool.true_and, Bool.not_false, if_true]
+    rfl
+  · intro hc
+    unfold stmtF
+    show M.bind getSt _ st = M.bind getSt _ st
+    simp only [M.bind, getSt]
+    rcases hc with hc | ⟨cur, hc, hn⟩
+    · simp [hc]
+    · simp [hc, hn]
+
+/-- (e) Control flow keeps the semi-global flag, everything else clears it; at the root the flag
+    is set.  Together with (b): `@if/@for/@each/@while` at the top level assign to existing
+    global variables, while the same assignment inside a style rule, mixin or function declares a
+    local (b'). -/
+theorem C03_lexical_scoping_semi_global (r : Rec) (ctx : Ctx) (dev : Dev) (c : Expr) (body : List Stmt) (sel : String) (st : St) :
+    (Ctx.root dev).semi = true ∧
+    stmtF r ctx (.whil c body) st =
+      r.loop { ctx with env := st.heap.size :: ctx.env, semi := ctx.semi } c body { st with heap := st.heap.push {} } ∧
+    stmtF r ctx (.rule sel body) st =
+      r.block { ctx with env := st.heap.size :: ctx.env, semi := false, sel := sel :: ctx.sel } body
+        { st with heap := st.heap.push {} } := by
+  refine ⟨rfl, ?_, ?_⟩
+  · unfold stmtF
+    show inScope ctx true _ st = _
+    rw [inScope_eq]; simp
+  · unfold stmtF
+    show inScope ctx false _ st = _
+    rw [inScope_eq]; simp
+
+/-! ### @return exits loops -/
+
+/-- Core: running a list of iterations (or statements) stops at the first one that yields a
+    `@return` value; the result is that value and the state is the state right after it — nothing
+    after it runs, whatever it is. -/
+theorem C03_return_exits_loops_forEach {α : Type} (f : α → M (Option Value)) :
+    ∀ (pre : List α) (a : α) (post : List α) (st st1 st2 : St) (v : Value),
+      forEachM f pre st = .ok none st1 → f a st1 = .ok (some v) st2 →
+      forEachM f (pre ++ a :: post) st = .ok (some v) st2
+  | [], a, post, st, st1, st2, v, h1, h2 => by
+    have : st1 = st := by
+      simp only [forEachM] at h1
+      cases h1; rfl
+    subst this
+    simp only [List.nil_append, forEachM]
+    rw [bind_ok _ _ _ _ _ h2]; rfl
+  | p :: pre, a, post, st, st1, st2, v, h1, h2 => by
+    simp only [List.cons_append, forEachM] at h1 ⊢
+    cases hp : f p st with
+    | ok r st' =>
+      rw [bind_ok _ _ _ _ _ hp] at h1 ⊢
+      cases r with
+      | some w => simp only [] at h1; cases h1
+      | none =>
+        simp only [] at h1 ⊢
+        exact C03_return_exits_loops_forEach f pre a post st' st1 st2 v h1 h2
+    | err e st' => rw [bind_err _ _ _ _ _ hp] at h1; cases h1
+    | oof => rw [bind_oof _ _ _ hp] at h1; cases h1
+
+/-- A block: statements after a returning statement do not run. -/
+theorem C03_return_exits_loops_block (n : Nat) (ctx : Ctx) (pre : List Stmt) (s : Stmt) (post : List Stmt)
+    (st st1 st2 : St) (v : Value)
+    (h1 : (run (n + 1)).block ctx pre st = .ok none st1)
+    (h2 : (tick >>= fun _ => stmtF (run n) ctx s) st1 = .ok (some v) st2) :
+    (run (n + 1)).block ctx (pre ++ s :: post) st = .ok (some v) st2 :=
+  C03_return_exits_loops_forEach _ pre s post st st1 st2 v h1 h2
+
+/-- `@while`: when the body returns, the condition is not evaluated again. -/
+theorem C03_return_exits_loops_while (r : Rec) (ctx : Ctx) (c : Expr) (body : List Stmt)
+    (st st1 st2 : St) (x v : Value) (hc : r.expr ctx c st = .ok x st1) (hx : x.truthy = true)
+    (hb : r.block ctx body st1 = .ok (some v) st2) :
+    loopF r ctx c body st = .ok (some v) st2 := by
+  unfold loopF
+  rw [bind_ok _ _ _ _ _ hc]
+  simp only [hx, if_true]
+  rw [bind_ok _ _ _ _ _ hb]; rfl
+
+/-- `@each` (one variable): if iteration `a` returns `v`, the statement returns `v` in the state
+    right after that iteration; the remaining elements `post` are irrelevant. -/
+theorem C03_return_exits_loops_each (r : Rec) (ctx : Ctx) (x : String) (e : Expr) (body : List Stmt)
+    (st st0 st1 st2 : St) (l : Value) (pre post : List Value) (a v : Value)
+    (he : r.expr ctx e st = .ok l st0) (hl : asList l = pre ++ a :: post) :
+    let fid := st0.heap.size
+    let ctx' : Ctx := { ctx with env := fid :: ctx.env, semi := ctx.semi }
+    let iter : Value → M (Option Value) := fun w => do setVarIn fid x w; r.block ctx' body
+    forEachM iter pre { st0 with heap := st0.heap.push {} } = .ok none st1 →
+    iter a st1 = .ok (some v) st2 →
+    stmtF r ctx (.each [x] e body) st = .ok (some v) st2 := by
+  intro fid ctx' iter h1 h2
+  unfold stmtF
+  show (r.expr ctx e >>= _) st = _
+  rw [bind_ok _ _ _ _ _ he, inScope_eq']
+  simp only [Bool.true_and, hl]
+  exact C03_return_exits_loops_forEach iter pre a post _ st1 st2 v h1 h2
+where
+  inScope_eq' {α : Type} (ctx : Ctx) (semi : Bool) (body : Ctx → M α) (st : St) :
+    inScope ctx semi body st =
+      body { ctx with env := st.heap.size :: ctx.env, semi := semi && ctx.semi }
+        { st with heap := st.heap.push {} } := rfl
+
+/-- A user function's value is the value of the `@return` that ended its body. -/
+theorem C03_return_exits_loops_call (r : Rec) (ctx' : Ctx) (body : List Stmt) (st st1 : St) (v : Value)
+    (hb : r.block ctx' body st = .ok (some v) st1) :
+    (do match ← r.block ctx' body with
+        | some v => pure v
+        | none => fail Err.noReturn : M Value) st = .ok v st1 := by
+  rw [bind_ok _ _ _ _ _ hb]; rfl
+
+/-! ### @each destructuring -/
+
+/-- Binding `xs` (pairwise distinct) to the elements `vs` of one list element: the `i`-th variable
+    gets the `i`-th element, `null` when the element is too short; extra elements are ignored; no
+    other variable, frame, declaration or log entry changes. -/
+theorem C03_each_destructuring (fid : Nat) :
+    ∀ (xs : List String) (vs : List Value) (st : St), xs.Nodup → fid < st.heap.size →
+      ∃ st', eachBind fid xs vs st = .ok () st' ∧ st'.css = st.css ∧ st'.log = st.log ∧
+        st'.heap.size = st.heap.size ∧
+        (∀ (i : Nat) (x : String), xs[i]? = some x → getV st'.heap fid x = some (vs[i]?.getD .null)) ∧
+        (∀ g m, (g ≠ fid ∨ m ∉ xs) → getV st'.heap g m = getV st.heap g m)
+  | [], vs, st, _, _ => by
+    refine ⟨st, ?_, rfl, rfl, rfl, ?_, fun _ _ _ => rfl⟩
+    · cases vs <;> rfl
+    · intro i x h; simp at h
+  | x :: xs, vs, st, hnd, hf => by
+    obtain ⟨hx, hnd'⟩ := List.nodup_cons.mp hnd
+    -- the value bound to `x` and the rest of the element
+    let w : Value := vs.head?.getD .null
+    let st1 : St := { st with heap := setV st.heap fid x w }
+    have hstep : eachBind fid (x :: xs) vs st = eachBind fid xs vs.tail st1 := by
+      cases vs with
+      | nil =>
+        simp only [eachBind]
+        rw [bind_ok _ _ _ _ _ (setVarIn_eq fid x .null st)]; rfl
+      | cons v vs' =>
+        simp only [eachBind]
+        rw [bind_ok _ _ _ _ _ (setVarIn_eq fid x v st)]; rfl
+    have hf1 : fid < st1.heap.size := by simp [st1, setV_size]; exact hf
+    obtain ⟨st', h1, h2, h3, h4, h5, h6⟩ := C03_each_destructuring fid xs vs.tail st1 hnd' hf1
+    refine ⟨st', by rw [hstep]; exact h1, h2, h3, by rw [h4]; simp [st1, setV_size], ?_, ?_⟩
+    · intro i y hy
+      cases i with
+      | zero =>
+        simp at hy; subst hy
+        rw [h6 fid x (Or.inr hx)]
+        show getV (setV st.heap fid x w) fid x = _
+        rw [getV_setV _ _ _ _ _ _ hf]
+        cases vs <;> simp [w]
+      | succ i =>
+        have := h5 i y (by simpa using hy)
+        rw [this]
+        cases vs <;> simp
+    · intro g m hgm
+      have hm' : g ≠ fid ∨ m ∉ xs := by
+        rcases hgm with h | h
+        · exact Or.inl h
+        · exact Or.inr (fun c => h (by simp [c]))
+      rw [h6 g m hm']
+      show getV (setV st.heap fid x w) g m = _
+      rw [getV_setV _ _ _ _ _ _ hf]
+      have : ¬ (g = fid ∧ m = x) := by
+        rintro ⟨rfl, rfl⟩
+        rcases hgm with h | h
+        · exact h rfl
+        · exact h (by simp)
+      simp [this]
+
+/-- **Closures capture the defining scope.**  A function whose body is `@return $x`, called from
+    ANY context `ctx`, returns what `$x` is in the scope chain `denv` it was defined in, looked up
+    in the heap as it is NOW (so later assignments to the defining scope's variables are seen):
+    the caller's scope chain `ctx.env` does not occur in the result. -/
+theorem C03_closure_captures_definition_scope (n : Nat) (ctx : Ctx) (f x : String) (denv : List Nat) (st : St)
+    (hfn : lookupFn st.heap ctx.env f = some { params := ⟨[], none⟩, body := [.ret (.var x)], env := denv })
+    (hval : ∀ g ∈ denv, g < st.heap.size) (hw : st.work ≠ 0) :
+    (run (n + 4)).expr ctx (.call f [] [] none) st =
+      match lookupVar st.heap denv x with
+      | some v => .ok v { st with heap := st.heap.push {}, work := st.work - 1 }
+      | none => .err .undefinedVariable { st with heap := st.heap.push {}, work := st.work - 1 } := by
+  have hl : lookupVar (st.heap.push {}) (st.heap.size :: denv) x = lookupVar st.heap denv x := by
+    rw [lookupVar_cons, getV_push]; simp only [if_true]
+    exact lookupVar_push st.heap denv x hval
+  show exprF (run (n + 3)) ctx (.call f [] [] none) st = _
+  rw [call_eq _ _ _ _ _ hfn, invoke_nil]
+  -- the body block: one statement
+  let st1 : St := { st with heap := st.heap.push {} }
+  let ctx' : Ctx := { dev := ctx.dev, env := st.heap.size :: denv, semi := false, content := none, sel := ctx.sel, inFn := true }
+  have hvar : (run (n + 2)).expr ctx' (.var x) { st1 with work := st1.work - 1 } =
+      match lookupVar st.heap denv x with
+      | some v => .ok v { st1 with work := st1.work - 1 }
+      | none => .err .undefinedVariable { st1 with work := st1.work - 1 } := by
+    show exprF (run (n + 1)) ctx' (.var x) _ = _
+    unfold exprF
+    show (getSt >>= _) _ = _
+    rw [bind_ok getSt _ _ _ _ rfl]
+    simp only [ctx', st1, hl]
+    cases lookupVar st.heap denv x <;> rfl
+  have hblock : (run (n + 3)).block ctx' [.ret (.var x)] st1 =
+      match lookupVar st.heap denv x with
+      | some v => .ok (some v) { st1 with work := st1.work - 1 }
+      | none => .err .undefinedVariable { st1 with work := st1.work - 1 } := by
+    show forEachM (fun s => do tick; stmtF (run (n + 2)) ctx' s) [.ret (.var x)] st1 = _
+    unfold forEachM
+    show ((tick >>= fun _ => stmtF (run (n + 2)) ctx' (.ret (.var x))) >>= _) st1 = _
+    have ht := tick_ok st1 hw
+    have hstmt : (tick >>= fun _ => stmtF (run (n + 2)) ctx' (.ret (.var x))) st1 =
+        match lookupVar st.heap denv x with
+        | some v => .ok (some v) { st1 with work := st1.work - 1 }
+        | none => .err .undefinedVariable { st1 with work := st1.work - 1 } := by
+      rw [bind_ok tick _ _ _ _ ht]
+      unfold stmtF
+      show (if (!ctx'.inFn) = true then fail Err.staticError else (run (n + 2)).expr ctx' (.var x) >>= fun v => pure (some v)) _ = _
+      simp only [ctx', Bool.not_true, Bool.false_eq_true, if_false]
+      show M.bind _ _ _ = _
+      unfold M.bind
+      rw [hvar]
+      cases lookupVar st.heap denv x <;> rfl
+    show M.bind _ _ st1 = _
+    unfold M.bind
+    rw [hstmt]
+    cases lookupVar st.heap denv x <;> rfl
+  show M.bind (M.bind ((run (n + 3)).block ctx' [.ret (.var x)]) _) _ st1 = _
+  unfold M.bind
+  rw [hblock]
+  cases lookupVar st.heap denv x <;> rfl
+
+/-- **Mixin bodies run in the defining scope** (any body): including a parameterless mixin runs
+    its body in a fresh child frame of the chain `denv` the mixin was DEFINED in — the caller
+    contributes only the current style rule (`sel`) and the content block, not its variables. -/
+theorem C03_closure_mixin_body_in_definition_scope (r : Rec) (ctx : Ctx) (m : String) (mb : List Stmt)
+    (denv : List Nat) (st : St)
+    (hm : lookupMixin st.heap ctx.env m = some { params := ⟨[], none⟩, body := mb, env := denv }) :
+    stmtF r ctx (.incl m ⟨[], [], none⟩ none) st =
+      match r.block { dev := ctx.dev, env := st.heap.size :: denv, semi := false, content := none,
+                      sel := ctx.sel, inFn := false } mb { st with heap := st.heap.push {} } with
+      | .ok _ s => .ok none s
+      | .err e s => .err e s
+      | .oof => .oof := by
+  unfold stmtF
+  show (getSt >>= _) st = _
+  rw [bind_ok getSt _ st st st rfl]
+  simp only [hm, Option.isSome_none, Bool.false_and, Bool.false_eq_true, if_false]
+  show (evalArgs r ctx ⟨[], [], none⟩ >>= _) st = _
+  rw [bind_ok _ _ _ _ _ (evalArgs_nil r ctx st)]
+  simp only [Option.map_none]
+  rw [invoke_nil]
+  show M.bind (M.bind (r.block _ mb) _) _ _ = _
+  unfold M.bind
+  cases r.block _ mb { st with heap := st.heap.push {} } <;> rfl
+
+/-- **A content block runs in the caller's scope.**  `@include m { cb }` where `m`'s body is just
+    `@content`: the block `cb` runs in a fresh child frame of the INCLUDING site's chain `ctx.env`
+    (with the including site's own content block as its `@content`), not of the mixin's chain
+    `denv`, which does not occur in the result. -/
+theorem C03_content_in_caller_scope (n : Nat) (ctx : Ctx) (m : String) (cb : List Stmt)
+    (denv : List Nat) (st : St)
+    (hm : lookupMixin st.heap ctx.env m =
+      some { params := ⟨[], none⟩, body := [.content ⟨[], [], none⟩], env := denv })
+    (hw : st.work ≠ 0) :
+    stmtF (run (n + 2)) ctx (.incl m ⟨[], [], none⟩ (some (⟨[], none⟩, cb))) st =
+      match (run (n + 1)).block { dev := ctx.dev, env := (st.heap.size + 1) :: ctx.env, semi := false,
+                                  content := ctx.content, sel := ctx.sel, inFn := false } cb
+              { st with heap := (st.heap.push {}).push {}, work := st.work - 1 } with
+      | .ok _ s => .ok none s
+      | .err e s => .err e s
+      | .oof => .oof := by
+  unfold stmtF
+  show (getSt >>= _) st = _
+  rw [bind_ok getSt _ st st st rfl]
+  have hc : blockHasContent [Stmt.content ⟨[], [], none⟩] = true := by
+    simp [blockHasContent, stmtHasContent]
+  simp only [hm, hc, Option.isSome_some, Bool.not_true, Bool.and_false, Bool.false_eq_true, if_false]
+  show (evalArgs (run (n + 2)) ctx ⟨[], [], none⟩ >>= _) st = _
+  rw [bind_ok _ _ _ _ _ (evalArgs_nil _ ctx st)]
+  simp only [Option.map_some]
+  rw [invoke_nil]
+  -- the mixin body: the single statement `@content`
+  let st1 : St := { st with heap := st.heap.push {} }
+  let ctxM : Ctx := { dev := ctx.dev, env := st.heap.size :: denv, semi := false,
+                      content := some (Content.mk ⟨[], none⟩ cb ctx.env ctx.content), sel := ctx.sel, inFn := false }
+  let st2 : St := { st with heap := (st.heap.push {}).push {}, work := st.work - 1 }
+  let ctxC : Ctx := { dev := ctx.dev, env := (st.heap.size + 1) :: ctx.env, semi := false,
+                      content := ctx.content, sel := ctx.sel, inFn := false }
+  have hstmt : stmtF (run (n + 1)) ctxM (.content ⟨[], [], none⟩) { st1 with work := st1.work - 1 } =
+      match (run (n + 1)).block ctxC cb st2 with
+      | .ok _ s => .ok none s
+      | .err e s => .err e s
+      | .oof => .oof := by
+    unfold stmtF
+    simp only [ctxM]
+    show (evalArgs (run (n + 1)) _ ⟨[], [], none⟩ >>= _) _ = _
+    rw [bind_ok _ _ _ _ _ (evalArgs_nil _ _ _)]
+    rw [invoke_nil]
+    show M.bind (M.bind ((run (n + 1)).block _ cb) _) _ _ = _
+    unfold M.bind
+    have hsz : ({ st1 with work := st1.work - 1 } : St).heap.size = st.heap.size + 1 := by simp [st1]
+    simp only [hsz]
+    cases (run (n + 1)).block ctxC cb st2 <;> rfl
+  have hblock : (run (n + 2)).block ctxM [.content ⟨[], [], none⟩] st1 =
+      match (run (n + 1)).block ctxC cb st2 with
+      | .ok _ s => .ok none s
+      | .err e s => .err e s
+      | .oof => .oof := by
+    show forEachM (fun s => do tick; stmtF (run (n + 1)) ctxM s) [.content ⟨[], [], none⟩] st1 = _
+    unfold forEachM
+    show M.bind (tick >>= fun _ => stmtF (run (n + 1)) ctxM (.content ⟨[], [], none⟩)) _ st1 = _
+    unfold M.bind
+    rw [bind_ok tick _ _ _ _ (tick_ok st1 hw), hstmt]
+    cases (run (n + 1)).block ctxC cb st2 <;> rfl
+  show M.bind (M.bind ((run (n + 2)).block ctxM _) _) _ st1 = _
+  unfold M.bind
+  rw [hblock]
+  cases (run (n + 1)).block ctxC cb st2 <;> rfl
+
+/-- `@for` (ascending or descending): if the iteration for `i` returns `v`, the statement returns
+    `v` in the state right after that iteration; the remaining values `post` of the range are not
+    visited. -/
+theorem C03_return_exits_loops_for (r : Rec) (ctx : Ctx) (x : String) (lo hi : Expr) (incl : Bool)
+    (body : List Stmt) (st st0 st0' st1 st2 : St) (a b : Int) (pre post : List Int) (i : Int) (v : Value)
+    (hlo : r.expr ctx lo st = .ok (.num (a : Rat)) st0) (hhi : r.expr ctx hi st0 = .ok (.num (b : Rat)) st0')
+    (hl : forRange a b incl = pre ++ i :: post) :
+    let fid := st0'.heap.size
+    let ctx' : Ctx := { ctx with env := fid :: ctx.env, semi := ctx.semi }
+    let iter : Int → M (Option Value) := fun k => do setVarIn fid x (.num k); r.block ctx' body
+    forEachM iter pre { st0' with heap := st0'.heap.push {} } = .ok none st1 →
+    iter i st1 = .ok (some v) st2 →
+    stmtF r ctx (.forr x lo hi incl body) st = .ok (some v) st2 := by
+  intro fid ctx' iter h1 h2
+  unfold stmtF
+  show (r.expr ctx lo >>= _) st = _
+  rw [bind_ok _ _ _ _ _ hlo]
+  show (intOf _ >>= _) st0 = _
+  rw [bind_ok _ _ _ _ _ (intOf_int a st0)]
+  show (r.expr ctx hi >>= _) st0 = _
+  rw [bind_ok _ _ _ _ _ hhi]
+  show (intOf _ >>= _) st0' = _
+  rw [bind_ok _ _ _ _ _ (intOf_int b st0'), inScope_eq]
+  simp only [Bool.true_and, hl]
+  exact C03_return_exits_loops_forEach iter pre i post _ st1 st2 v h1 h2
+
+/-- **Nested loops**: a `@return` in an inner loop (any statement `s` of the outer loop's body that
+    yields a value — in particular an inner `@for/@each/@while`, by the theorems above) ends the
+    outer `@each` as well: later statements of the body (`spost`) and later elements (`post`) do
+    not run; the function then returns that value (`C03_return_exits_loops_call`). -/
+theorem C03_return_exits_loops (n : Nat) (ctx : Ctx) (x : String) (e : Expr)
+    (spre : List Stmt) (s : Stmt) (spost : List Stmt)
+    (st st0 st1 st1' st1'' st2 : St) (l : Value) (pre post : List Value) (a v : Value)
+    (he : (run (n + 1)).expr ctx e st = .ok l st0) (hl : asList l = pre ++ a :: post) :
+    let fid := st0.heap.size
+    let ctx' : Ctx := { ctx with env := fid :: ctx.env, semi := ctx.semi }
+    let iter : List Stmt → Value → M (Option Value) := fun b w => do setVarIn fid x w; (run (n + 1)).block ctx' b
+    forEachM (iter (spre ++ s :: spost)) pre { st0 with heap := st0.heap.push {} } = .ok none st1 →
+    setVarIn fid x a st1 = .ok () st1' →
+    (run (n + 1)).block ctx' spre st1' = .ok none st1'' →
+    (tick >>= fun _ => stmtF (run n) ctx' s) st1'' = .ok (some v) st2 →
+    stmtF (run (n + 1)) ctx (.each [x] e (spre ++ s :: spost)) st = .ok (some v) st2 := by
+  intro fid ctx' iter h1 hset hpre hs
+  have hiter : iter (spre ++ s :: spost) a st1 = .ok (some v) st2 := by
+    show (setVarIn fid x a >>= fun _ => (run (n + 1)).block ctx' (spre ++ s :: spost)) st1 = _
+    rw [bind_ok _ _ _ _ _ hset]
+    exact C03_return_exits_loops_block n ctx' spre s spost st1' st1'' st2 v hpre hs
+  exact C03_return_exits_loops_each (run (n + 1)) ctx x e (spre ++ s :: spost) st st0 st1 st2 l pre post a v
+    he hl h1 hiter
+
+/-- **Lexical scoping**, all clauses: (a) block-local declaration, (b) assignment to an enclosing
+    variable, (b') globals are shadowed from non-semi-global local scopes, (c) `!global`,
+    (d) `!default`, (e) the semi-global flag. -/
+theorem C03_lexical_scoping :
+    type_of% @C03_lexical_scoping_block_local ∧ type_of% @C03_lexical_scoping_assign_outer ∧
+    type_of% @C03_lexical_scoping_global_shadowed ∧ type_of% @C03_lexical_scoping_global_flag ∧
+    type_of% @C03_lexical_scoping_default ∧ type_of% @C03_lexical_scoping_semi_global :=
+  ⟨@C03_lexical_scoping_block_local, @C03_lexical_scoping_assign_outer, @C03_lexical_scoping_global_shadowed,
+   @C03_lexical_scoping_global_flag, @C03_lexical_scoping_default, @C03_lexical_scoping_semi_global⟩
+
+/-- concrete instance of (a)/(b): `$x: 1` in the global frame 0, a block frame 1 -/
+example : assignTarget (#[{ vars := [("x", .num 1)] }, {}] : Array Frame) [1, 0] "x" false true = some 0 ∧
+    assignTarget (#[{ vars := [("x", .num 1)] }, {}] : Array Frame) [1, 0] "x" false false = some 1 ∧
+    assignTarget (#[{ vars := [("x", .num 1)] }, {}] : Array Frame) [1, 0] "y" false true = some 1 ∧
+    assignTarget (#[{ vars := [("x", .num 1)] }, {}] : Array Frame) [1, 0] "y" true false = some 0 := by
+  decide
 
 end Grass.Eval
